@@ -35,6 +35,7 @@ func (e *Engine) resetFor(fi *FuncInfo) {
 	e.baseNames = map[string]Value{}
 	e.selfNames = map[string]Value{}
 	e.callRes = map[string][]Value{}
+	e.globalErrs = map[string]*Term{}
 	e.callArgs = map[string][][]Value{}
 	e.dynType = map[string]types.Type{}
 	e.extraStreams = nil
@@ -63,6 +64,7 @@ func (e *Engine) verifyFunc(fi *FuncInfo) (rep *FuncReport) {
 	st := newState()
 	info := fi.Pkg.TypesInfo
 	sig := fi.Obj.Type().(*types.Signature)
+	e.usedNilChan = false
 	e.arrayMode = c.Attrs["streams"] == "arrays"
 	if e.arrayMode {
 		e.notes["array mode: stream cursors kept in arrays indexed by stream id (symbolic number of channels)"] = true
@@ -261,6 +263,11 @@ func (e *Engine) checkExit(fi *FuncInfo, o Out, sig *types.Signature) {
 		names[k] = v
 	}
 	if o.kind == fReturn {
+		for i := range o.ret {
+			if i < sig.Results().Len() {
+				o.ret[i] = e.coerceNil(o.ret[i], sig.Results().At(i).Type())
+			}
+		}
 		if len(o.ret) == 1 {
 			names["result"] = o.ret[0]
 		}
